@@ -17,10 +17,11 @@ func init() { register("C16", checkC16) }
 func checkC16(p *Prog, r *Report) {
 	c16Rotation(p, r)
 	c16Sowing(p, r)
-	c16Harvest(p, r)
+	c16Harvest(p, r, "C16.R3")
 	c16Irrigation(p, r)
 	c16AutoN(p, r)
 	c16TableRow(p, r)
+	c16Skip(p, r)
 }
 
 func nonLoopGuardKeys(e *Event) []string {
@@ -225,8 +226,8 @@ func c16Sowing(p *Prog, r *Report) {
 
 // ---------------------------------------------------------------- harvest
 
-func c16Harvest(p *Prog, r *Report) {
-	r.Rule("C16.R3", "harvest not later than the latest harvest date: a forced store harvest = day + 1 under exactly (day == latest harvest − 1 ∧ not yet harvested) exists on a path that does not depend on crop development, and every automatic harvest store is guarded by not-yet-harvested and records the same day as latest date", 2)
+func c16Harvest(p *Prog, r *Report, rule string) {
+	r.Rule(rule, "harvest not later than the latest harvest date: a forced store harvest = day + 1 under exactly (day == latest harvest − 1 ∧ not yet harvested) exists on a path that does not depend on crop development, and every automatic harvest store is guarded by not-yet-harvested and records the same day as latest date", 2)
 	run := walked(p, "hermes.HermesSession.Run")
 	x := walked(p, "hermes.PhytoOut")
 	if x == nil || run == nil {
@@ -460,4 +461,59 @@ func c16TableRow(p *Prog, r *Report) {
 	if n == 0 {
 		r.Ob("row", "-", false, "no store from the automatic-management table found")
 	}
+}
+
+// ---------------------------------------------------------------- skip decision
+
+// c16Skip: after the harvest the rotation index moves to the next entry; that
+// entry may be skipped (second advance) only when ITS sowing window has
+// already closed.  The window end that is tested must therefore be read at the
+// index the first advance produced.
+func c16Skip(p *Prog, r *Report) {
+	r.Rule("C16.R7", "skipping a rotation entry at harvest: the second advance of the rotation index in the harvest branch is guarded by 'latest sowing date of the entry the first advance moved to ≤ today' in automatic mode — the window that is tested belongs to the entry that is skipped", 1)
+	x := walked(p, "hermes.Nitro")
+	if x == nil {
+		r.Ob("Nitro", "-", false, "hermes.Nitro not found")
+		return
+	}
+	akf := "GlobalVarsMain.AKF.Index"
+	var incs []*Event
+	for _, e := range x.Events {
+		if e.Kind == "assign" && e.Root == akf && e.Val.Sub(e.Old).Equal(PInt(1)) {
+			incs = append(incs, e)
+		}
+	}
+	if len(incs) != 2 {
+		r.Ob("skip-guard", "-", false, fmt.Sprintf("%d advances of the rotation index in Nitro, expected the harvest advance and the skip", len(incs)))
+		return
+	}
+	first, second := incs[0], incs[1]
+	var idx Poly
+	found := false
+	for _, g := range flattenGuards(second.Guards) {
+		if g.Kind != "cmp" || !(g.Op == token.LEQ || g.Op == token.LSS) {
+			continue
+		}
+		g.P.walkAtoms(func(a *Atom) {
+			if a.Kind == "cell" && a.Root == "GlobalVarsMain.SAAT2" && len(a.Idx) == 1 && !hasGuardKey(first, g) {
+				idx = a.Idx[0]
+				found = true
+			}
+		})
+	}
+	if !found {
+		r.Ob("skip-guard", p.Pos(second.Pos), false, "the skip is not guarded by a test of a latest sowing date")
+		return
+	}
+	ok := stripVersions(idx).Equal(stripVersions(first.Val))
+	r.Ob("skip-guard", p.Pos(second.Pos), ok, fmt.Sprintf("the skip tests the window end of entry %s; the entry that would be skipped is %s (the index after the harvest advance)", clip(stripVersions(idx).String(), 60), clip(stripVersions(first.Val).String(), 60)))
+}
+
+func hasGuardKey(e *Event, g *Cond) bool {
+	for _, h := range flattenGuards(e.Guards) {
+		if h.Key() == g.Key() {
+			return true
+		}
+	}
+	return false
 }
